@@ -52,6 +52,7 @@ def single_configs(ctx):
     insts = [("single", 3, 1), (1, "single", 7)] if ctx.quick else [("single", 3, 1), (1, "single", 7), ("single", 1, "single"), (2, "single", "single")]
     base = hw.configs(True, maxb=2)
     stride = 9 if ctx.quick else 2
+    base = [b for b in base if not b[0].startswith("mm/occ|mrgx:A")]      # F16: reported by C06 / C11
     for k, (tag, spec, exts, labels) in enumerate(base[::stride]):
         for i, inst in enumerate(insts):
             s = copy.deepcopy(spec)
